@@ -436,6 +436,7 @@ theorem pE (hR : PruneRel G G' fns R) (n : Nat) (ih : PAt G G' fns R n) : ∀ ρ
         cases hl : lookupG fs f with
         | none => trivial
         | some u => exact ⟨vgF_lookup hst hl, g1.2⟩
+    · split <;> trivial
   | index t a i =>
     simp only []
     pcall va w1 g1 : ih.ev (e := a) hρ hw (by sub)
